@@ -234,6 +234,8 @@ def spec_eval(e, env):
             return e.value.to_bytes(4, "big")
         raise ValueError(e.kind)
     if isinstance(e, gen.Ref):
+        if e.mods:
+            return CONST_VALUE["::".join(e.mods + e.comps)]
         return env[".".join(e.comps)]
     if isinstance(e, gen.Call):
         name = "::".join(e.mods + e.comps)
@@ -256,6 +258,14 @@ def spec_eval(e, env):
 
 
 LENGTHS = [0, 1, 2, 3, 7, 8, 9, 31, 32, 33, 64, 255, 256, 257]
+
+# documented library constants (docs/: "(u16)0x0800" ...) used as bytes: a constant contributes exactly its declared width
+CONSTS = [("eth::ethertype::IPV4", bytes.fromhex("0800")), ("ipv4::proto::TCP", b"\x06"), ("ipv4::proto::UDP", b"\x11"),
+          ("vxlan::DEFAULT_PORT", (4789).to_bytes(2, "big")), ("dhcp::opt::END", b"\xff"), ("dhcp::opt::MESSAGE_TYPE", b"\x35"),
+          ("text::CRLF", b"\r\n"), ("eth::BROADCAST", b"\xff" * 6), ("tls::version::TLS_1_2", bytes.fromhex("0303")),
+          ("tls::content::HANDSHAKE", b"\x16"), ("dns::qtype::A", bytes.fromhex("0001")), ("dns::class::IN", bytes.fromhex("0001")),
+          ("arp::hrd::ETHER", (1).to_bytes(8, "big"))]
+CONST_VALUE = dict(CONSTS)
 
 
 def rand_data(r, big=False):
@@ -295,8 +305,10 @@ class PayloadGen:
             return INT(r.choice([0, 1, 255, 256, 2 ** 32, 2 ** 64 - 1, r.getrandbits(64), r.getrandbits(16)]))
         if k < 0.88:
             return IP(r.choice([0, 0xffffffff, 0x01020304, r.getrandbits(32)]))
-        if k < 0.92:
+        if k < 0.90:
             return Call("text::len", *[self.piece(depth + 1) for _ in range(r.randint(0, 2))])
+        if k < 0.94:
+            return Ref(r.choice(CONSTS)[0])
         # a let-bound value
         self.nvar += 1
         name = "v%d" % self.nvar
@@ -326,7 +338,7 @@ def build_case(name, r, pend, builder, forced_args=None):
     args = forced_args(pg) if forced_args else pg.args()
     raw = r.random() < 0.3
     rk = {"raw": True} if raw else {}
-    st = [Import("ipv4"), Import("text"), Import("std"), Import("eth"), Import("tls")]
+    st = [Import(m) for m in ("ipv4", "text", "std", "eth", "tls", "vxlan", "dhcp", "dns", "arp")]
     a, b = SOCK(rand_ip(r), rand_port(r)), SOCK(rand_ip(r), rand_port(r))
     loc, rec, extra = None, 0, {}
     body = []
@@ -496,6 +508,51 @@ def check_programs(ctx):
                    Do(Call("ipv4::datagram", IP("10.0.0.1"), IP("10.0.0.2"), _x=[Ref("pk"), pend.lit(b"tail")], proto=4))]
         c.gen = {"builder": "datagram", "rec": 1, "locator": "ip", "raw": False, "args": [Ref("pk"), c.stmts[-1][1].args[-1][1]],
                  "env_exprs": {}, "kind": "packet used as bytes", "pkt_from_record": ("pk", 0)}
+        cases.append(c)
+    # ... also when the packet expression is written in place (the value is then owned by nobody else): the same
+    # expression is first emitted on its own (record 0) and then used as bytes by every kind of carrier (record 1)
+    for i in range(60 if ctx.thorough else 24):
+        c = Case()
+        c.name, c.files, c.text, c.meta = "kk%d" % i, {}, None, []
+        ik = i % 4
+        pre = []
+        mac = lambda: STR(bytes(r.getrandbits(8) for _ in range(6)))
+        if ik == 0:
+            mk = lambda: Call("ipv4::udp::unicast", SOCK("10.1.2.3:5"), SOCK("10.1.2.4:6"), _x=[STR(b"inner-%d" % i)], **({"raw": True} if i % 8 < 4 else {}))
+        elif ik == 1:
+            m1, m2 = mac(), mac()
+            mk = lambda: Call("eth::frame", m1, m2, _x=[STR(b"framed-%d" % i)])
+        elif ik == 2:
+            mk = lambda: Call("ipv4::datagram", IP("10.9.9.1"), IP("10.9.9.2"), _x=[STR(b"dgram-%d" % i)])
+        else:
+            pre = [Let("g", Call("ipv4::frag", IP("10.8.8.1"), IP("10.8.8.2"), _x=[STR(b"0123456789abcdef-%d" % i)]))]
+            mk = lambda: Call("g.fragment", 0, 1, raw=True)
+        tail = pend.lit(b"tail")
+        ck = (i // 4) % 6
+        body = [Do(mk())]
+        if ck == 0:
+            body.append(Do(Call("ipv4::datagram", IP("10.0.0.1"), IP("10.0.0.2"), _x=[mk(), tail], proto=4)))
+            b_, loc_, args_ = "datagram", "ip", None
+        elif ck == 1:
+            body += [Let("u", Call("ipv4::udp::flow", SOCK("10.0.0.1:1"), SOCK("10.0.0.2:2"))), Do(Call("u.client_dgram", _x=[mk(), tail]))]
+            b_, loc_ = "udp_client", "udp"
+        elif ck == 2:
+            body += [Let("t", Call("ipv4::tcp::flow", SOCK("10.0.0.1:1"), SOCK("10.0.0.2:2"))), Do(Call("t.client_message", _x=[mk()]))]
+            b_, loc_ = "tcp_client_msg", "tcp"
+        elif ck == 3:
+            body.append(Do(Call("eth::frame", mac(), mac(), _x=[mk(), tail])))
+            b_, loc_ = "eth_frame", "eth"
+        elif ck == 4:
+            body.append(Do(Call("ipv4::udp::unicast", SOCK("10.0.0.1:1"), SOCK("10.0.0.2:2"), _x=[Call("text::concat", mk(), tail)])))
+            b_, loc_ = "udp_unicast", "udp"
+        else:
+            body += [Let("i", Call("ipv4::icmp::flow", IP("10.0.0.1"), IP("10.0.0.2"))), Do(Call("i.echo", mk()))]
+            b_, loc_ = "icmp_echo", "icmp"
+        used = body[-1][1]
+        c.stmts = [Import(m) for m in ("ipv4", "text", "eth")] + pre + body
+        args_ = [Ref("pk")] + ([tail] if ck in (0, 1, 3, 4) else [])
+        c.gen = {"builder": b_, "rec": 1, "locator": loc_, "raw": False, "args": args_, "env_exprs": {},
+                 "kind": "packet written in place used as bytes", "pkt_from_record": ("pk", 0)}
         cases.append(c)
     pend.resolve(ctx)
     diff.run_both(ctx, "c05", cases)
